@@ -110,6 +110,14 @@ Definition may_close (c : vconn) : bool :=
 Definition may_close_unfixed (c : vconn) : bool :=
   v_responder_ended c && negb (v_persisted c) && v_txes_empty c.
 
+(* ---------------------------------------------------------------- Part 1c: idle timeout *)
+
+(* Requestant.checkPersisted: once the head of a persistent request has been parsed the incomer's
+   idle timeout is set to 0.0 = never; Valet.serviceConnects drops a connection iff
+   ix.timeout > 0.0 and ix.timer.expired.  Times in milliseconds of STORE time. *)
+Definition timeout_after_head (persisted : bool) (configured : Z) : Z := if persisted then 0 else configured.
+Definition idle_drop (timeout elapsed : Z) : bool := (0 <? timeout) && (timeout <=? elapsed).
+
 (* ---------------------------------------------------------------- Part 2: the connection *)
 
 Section Session.
@@ -152,7 +160,9 @@ Section Session.
   | CSend            (* Patron.serviceRequests + serviceTxes                     *)
   | SServe           (* Valet.serviceReqs + serviceReps (+ serviceTxes)          *)
   | Xfer (k : nat)   (* k more bytes reach the client's socket                   *)
-  | CRecv.           (* Patron.serviceResponse                                   *)
+  | CRecv            (* Patron.serviceResponse                                   *)
+  | Tick (ms : Z).   (* store time advances (idle gap between requests, slow application): on a
+                        persistent connection nothing happens -- see idle_drop / Props *)
 
   Definition do_step (s : st) (o : step) : st :=
     match o with
@@ -183,6 +193,7 @@ Section Session.
             end
         | None => s
         end
+    | Tick _ => s
     end.
 
   Definition run (sched : list step) : st := fold_left do_step sched init.
